@@ -43,7 +43,7 @@ def floors(tier):
 
 def plan(tier, seed):
     if tier == "quick":
-        n, per = 16, 600
+        n, per = 16, 1200
     else:
         n, per = 64, 18000
     return [{"seed": seed, "shard": i, "per": per, "tier": tier} for i in range(n)]
